@@ -52,7 +52,14 @@ fn pairs(r: &mut Rng, sz: &Sizes) -> Vec<(JsonShape, JsonShape)> {
 }
 
 pub fn c10(r: &mut Rng, sz: &Sizes, out: &mut Vec<String>) {
-    let p = pool(r, sz.shapes);
+    let mut p = pool(r, sz.shapes);
+    for (a, b) in wide_shapes() {
+        out.push(format!("similar\t{}\t{}", sx(&a), sx(&b)));
+        out.push(format!("p_similar\t{}\t{}\t!ok", sx(&a), sx(&json_shape::verif::as_optional(a.clone()))));
+        out.push(format!("subset\t{}\t{}", sx(&a), sx(&b)));
+        p.push(a);
+        p.push(b);
+    }
     for s in &p {
         let o = json_shape::verif::as_optional(s.clone());
         out.push(format!("subset\t{}\t{}\t!true", sx(s), sx(s)));
@@ -141,9 +148,32 @@ pub fn c02(r: &mut Rng, sz: &Sizes, out: &mut Vec<String>) {
     for (a, b) in pairs(r, sz) {
         out.push(format!("subset\t{}\t{}", sx(&a), sx(&b)));
     }
-    for (a, b) in oneof_wraps() {
+    for (a, b) in oneof_wraps().into_iter().chain(wide_shapes()) {
         out.push(format!("subset\t{}\t{}", sx(&a), sx(&b)));
         out.push(format!("subset\t{}\t{}", sx(&b), sx(&a)));
+    }
+    // every small shape — including the ones no document infers, such as a tuple of equal slots — against short
+    // texts of every kind and length, through both text entry points
+    let n = JsonShape::Number { optional: false };
+    let mut hand = small_shapes();
+    for k in 1..=4 {
+        hand.push(tup(vec![n.clone(); k], false));
+        hand.push(tup(vec![n.clone(); k], true));
+        hand.push(arr(tup(vec![n.clone(); k], false), false));
+        hand.push(obj(vec![("a", tup(vec![n.clone(); k], false))], false));
+        hand.push(tup(vec![one_of(vec![n.clone(), JsonShape::String { optional: false }], false); k], false));
+        hand.push(one_of(vec![tup(vec![n.clone(); k], false), JsonShape::Bool { optional: false }], false));
+    }
+    let texts = [
+        "[]", "[7]", "[1,2]", "[1,2,3]", "[1,2,3,4]", "[1,2,3,4,5]", "[1,\"x\"]", "[\"x\",\"y\"]", "[null,1]", "[null]", "[[1],[2]]", "[[1,2]]", "[[1,2,3]]", "{}",
+        "{\"a\":1}", "{\"a\":[1,2,3]}", "{\"a\":[1]}", "1", "null", "\"s\"", "true", "[true,false]", "[true,false,true]", "[{\"a\":1},{\"a\":2}]",
+    ];
+    for s in &hand {
+        for t in texts {
+            let h = crate::wire::hex(t.as_bytes());
+            out.push(format!("superset\t{}\t{h}", sx(s)));
+            out.push(format!("supersetchk\t{}\t{h}", sx(s)));
+        }
     }
     // (shape, text) pairs: the shape is inferred from a related history
     for _ in 0..sz.docs {
@@ -227,9 +257,44 @@ fn docs(r: &mut Rng, sz: &Sizes) -> Vec<J> {
         J::Arr(vec![J::Arr(vec![]), J::Num("1".into())]),
     ];
     out.extend(conflict_docs());
+    out.extend(width_docs());
     for i in 0..sz.docs {
         let depth = i % 5;
         out.push(rand_doc(r, depth, DKEYS));
+    }
+    out
+}
+
+/// WIDTH: arrays of n equally shaped elements whose LAST (or middle) element alone differs, objects of n
+/// members whose last member alone is special, arrays of n objects of which only the last lacks / adds a key,
+/// for n around every power of two up to 300 — a loop that samples, batches or stops early shows only here
+pub fn width_docs() -> Vec<J> {
+    let mut out = Vec::new();
+    for n in [7usize, 8, 9, 15, 16, 17, 31, 32, 33, 63, 64, 65, 100, 127, 128, 129, 255, 256, 257, 300] {
+        let many = |e: &str, last: &str| -> String {
+            let mut v = vec![e.to_string(); n];
+            v.push(last.to_string());
+            format!("[{}]", v.join(","))
+        };
+        let mid = |e: &str, odd: &str| -> String {
+            let mut v = vec![e.to_string(); n];
+            v[n / 2] = odd.to_string();
+            format!("[{}]", v.join(","))
+        };
+        for t in [
+            many("1", "2"), many("1", "\"x\""), many("1", "null"), mid("1", "\"x\""), many("[1]", "[]"), many("[1]", "[\"x\"]"),
+            many("{\"id\":1}", "{\"id\":2}"), many("{\"id\":1}", "{}"), many("{\"id\":1}", "{\"id\":2,\"extra\":true}"),
+            many("{\"id\":1}", "{\"id\":null}"), mid("{\"id\":1}", "{\"id\":1,\"extra\":[1]}"), many("{\"id\":1}", "7"),
+            many("{\"id\":1,\"t\":[1,\"a\"]}", "{\"id\":1}"),
+        ] {
+            out.push(parse_j(&t));
+            out.push(parse_j(&format!("{{\"rows\":{t}}}")));
+        }
+        // wide objects: n members of one kind and a last one of another, in both key orders
+        let members: Vec<String> = (0..n).map(|i| format!("\"k{i:03}\":{i}")).collect();
+        out.push(parse_j(&format!("{{{},\"zz\":\"s\"}}", members.join(","))));
+        out.push(parse_j(&format!("{{\"aa\":[1],{}}}", members.join(","))));
+        out.push(parse_j(&format!("[{{{}}},{{{},\"zz\":null}}]", members.join(","), members[..n - 1].join(","))));
     }
     out
 }
@@ -311,9 +376,14 @@ pub fn core(r: &mut Rng, sz: &Sizes, out: &mut Vec<String>) {
 pub fn c01(r: &mut Rng, sz: &Sizes, out: &mut Vec<String>) {
     merger_ops(r, sz, out);
     infer_ops(r, sz, out, false);
-    for h in small_histories() {
+    for h in small_histories().into_iter().chain(width_histories()) {
         let hexes: Vec<String> = h.iter().map(|d| crate::wire::hex(d.as_bytes())).collect();
         out.push(format!("sourcesdoc\t{}\t!ok *", hexes.join("\t")));
+    }
+    // wide documents as single sources and next to a narrow sibling
+    for d in width_docs().into_iter().chain(conflict_docs()) {
+        out.push(format!("sourcesdoc\t{}\t!ok *", hex_doc(&d, 0)));
+        out.push(format!("sourcesdoc\t{}\t{}\t!ok *", hex_doc(&d, 0), crate::wire::hex(b"[]")));
     }
     for _ in 0..sz.histories {
         let h = rand_history(r, DKEYS);
@@ -454,10 +524,29 @@ pub fn small_histories() -> Vec<Vec<String>> {
     out
 }
 
+/// WIDTH for histories: n equally shaped sources and one last source that differs (another kind, a missing
+/// member, a null), n around powers of two up to 300
+pub fn width_histories() -> Vec<Vec<String>> {
+    let mut out = Vec::new();
+    for n in [8usize, 9, 16, 17, 32, 33, 64, 65, 128, 129, 256, 257, 300] {
+        for (e, last) in [
+            ("{\"id\":1,\"tag\":\"x\"}", "{\"id\":2}"), ("{\"id\":1}", "{\"id\":null}"), ("{\"id\":1}", "null"), ("[1,2]", "[1,\"x\"]"),
+            ("[1,\"x\"]", "[null]"), ("1", "\"s\""), ("{\"a\":[1]}", "{\"a\":[]}"), ("[{\"k\":1}]", "[{\"k\":1},{}]"),
+        ] {
+            let mut h = vec![e.to_string(); n];
+            h.push(last.to_string());
+            out.push(h.clone());
+            h.swap(0, n);
+            out.push(h);
+        }
+    }
+    out
+}
+
 pub fn c03(r: &mut Rng, sz: &Sizes, out: &mut Vec<String>) {
     reachable_ops(r, sz, out);
     infer_ops(r, sz, out, false);
-    for h in small_histories() {
+    for h in small_histories().into_iter().chain(width_histories()) {
         let hexes: Vec<String> = h.iter().map(|d| crate::wire::hex(d.as_bytes())).collect();
         out.push(format!("p_c03\t{}\t!ok", hexes.join("\t")));
     }
@@ -535,8 +624,8 @@ pub fn keeps(r: &mut Rng, sz: &Sizes, out: &mut Vec<String>) {
 pub fn c09(r: &mut Rng, sz: &Sizes, out: &mut Vec<String>) {
     reachable_ops(r, sz, out);
     let k = if sz.histories > 10_000 { 16 } else { 4 };
-    for h in small_histories() {
-        if h.len() <= 2 {
+    for h in small_histories().into_iter().chain(width_histories()) {
+        if h.len() <= 2 || (h.len() > 3 && h.len() <= 34) {
             let hexes: Vec<String> = h.iter().map(|d| crate::wire::hex(d.as_bytes())).collect();
             out.push(format!("p_c09\t{k}\t{}\t!ok *", hexes.join("\t")));
         }
